@@ -136,6 +136,123 @@ std::string bin_abd(regs_t& r, std::string const& op, int a, int b, int d)
     }
 }
 
+// compound assignment d op= a
+template<int A, int D>
+std::string cas(regs_t& r, std::string const& op)
+{
+    auto& a = reg<A>(r);
+    auto& d = reg<D>(r);
+    return guarded([&] {
+        if (op == "add") {
+            d += a;
+        } else if (op == "sub") {
+            d -= a;
+        } else if (op == "mul") {
+            d *= a;
+        } else {
+            d /= a;
+        }
+    });
+}
+template<int A>
+std::string cas_d(regs_t& r, std::string const& op, int d)
+{
+    switch (d) {
+    case 1: return cas<A, 1>(r, op);
+    case 2: return cas<A, 2>(r, op);
+    case 3: return cas<A, 3>(r, op);
+    default: return cas<A, 4>(r, op);
+    }
+}
+std::string cas_ad(regs_t& r, std::string const& op, int a, int d)
+{
+    switch (a) {
+    case 1: return cas_d<1>(r, op, d);
+    case 2: return cas_d<2>(r, op, d);
+    case 3: return cas_d<3>(r, op, d);
+    default: return cas_d<4>(r, op, d);
+    }
+}
+
+// d := -a
+template<int A, int D>
+std::string neg(regs_t& r)
+{
+    auto& a = reg<A>(r);
+    auto& d = reg<D>(r);
+    using TD = std::remove_reference_t<decltype(d)>;
+    return guarded([&] { d = static_cast<TD>(-a); });
+}
+template<int A>
+std::string neg_d(regs_t& r, int d)
+{
+    switch (d) {
+    case 1: return neg<A, 1>(r);
+    case 2: return neg<A, 2>(r);
+    case 3: return neg<A, 3>(r);
+    default: return neg<A, 4>(r);
+    }
+}
+std::string neg_ad(regs_t& r, int a, int d)
+{
+    switch (a) {
+    case 1: return neg_d<1>(r, d);
+    case 2: return neg_d<2>(r, d);
+    case 3: return neg_d<3>(r, d);
+    default: return neg_d<4>(r, d);
+    }
+}
+
+// the six comparisons, as a bit mask (< 1, <= 2, > 4, >= 8, == 16, != 32)
+template<int A, int B>
+std::string cmp(regs_t& r, int& mask)
+{
+    auto& a = reg<A>(r);
+    auto& b = reg<B>(r);
+    return guarded([&] {
+        mask = (a < b) * 1 + (a <= b) * 2 + (a > b) * 4 + (a >= b) * 8 + (a == b) * 16 + (a != b) * 32;
+    });
+}
+template<int A>
+std::string cmp_b(regs_t& r, int b, int& mask)
+{
+    switch (b) {
+    case 1: return cmp<A, 1>(r, mask);
+    case 2: return cmp<A, 2>(r, mask);
+    case 3: return cmp<A, 3>(r, mask);
+    default: return cmp<A, 4>(r, mask);
+    }
+}
+std::string cmp_ab(regs_t& r, int a, int b, int& mask)
+{
+    switch (a) {
+    case 1: return cmp_b<1>(r, b, mask);
+    case 2: return cmp_b<2>(r, b, mask);
+    case 3: return cmp_b<3>(r, b, mask);
+    default: return cmp_b<4>(r, b, mask);
+    }
+}
+
+// construction from a built-in integer (values on both sides of every register type's range)
+inline long long int_table(int vi)
+{
+    static long long const t[] = {0, 1, -1, 2, 3, -3, 7, -8, 15, 16, 100, -100, 127, -128, 1000, -1023, 1024, 65535, -65536,
+                                  1000000, 2147483647LL, -2147483647LL - 1, 1LL << 40, -(1LL << 40), (1LL << 62) + 12345, -((1LL << 62) + 54321),
+                                  9223372036854775807LL, -9223372036854775807LL - 1};
+    return t[static_cast<std::size_t>(vi) % (sizeof(t) / sizeof(t[0]))];
+}
+template<int K>
+std::string from_int(regs_t& r, long long v)
+{
+    using T = std::remove_reference_t<decltype(reg<K>(r))>;
+    return guarded([&] { reg<K>(r) = static_cast<T>(v); });
+}
+template<int K>
+std::string to_double(regs_t& r, double& d)
+{
+    return guarded([&] { d = static_cast<double>(reg<K>(r)); });
+}
+
 std::string raw_of(regs_t& r, int k)
 {
     switch (k) {
@@ -195,6 +312,46 @@ int main(int argc, char** argv)
                 int vi = field_i(o, "vi");
                 std::string v = rr == 1 ? load<1>(r, vi) : rr == 2 ? load<2>(r, vi) : rr == 3 ? load<3>(r, vi) : load<4>(r, vi);
                 out.put(ev("StLoad").num("i", id).num("prog", prog).num("k", k).num("r", rr).raw("v", v).s);
+            } else if (field_s(o, "k") == "cmp") {
+                int a = field_i(o, "a"), b = field_i(o, "b");
+                int mask = 0;
+                std::string va = raw_of(r, a), vb = raw_of(r, b);
+                std::string o2 = cmp_ab(r, a, b, mask);
+                out.put(ev("StCmp").num("i", id).num("prog", prog).num("k", k).num("a", a).num("b", b).raw("va", va).raw("vb", vb).num("mask", mask)
+                                .raw("all", "[" + raw_of(r, 1) + "," + raw_of(r, 2) + "," + raw_of(r, 3) + "," + raw_of(r, 4) + "]").str("out", o2).s);
+            } else if (field_s(o, "k") == "toflt") {
+                int a = field_i(o, "a");
+                double dv = 0;
+                std::string va = raw_of(r, a);
+                std::string o2 = a == 1 ? to_double<1>(r, dv) : a == 2 ? to_double<2>(r, dv) : a == 3 ? to_double<3>(r, dv) : to_double<4>(r, dv);
+                out.put(ev("StToFlt").num("i", id).num("prog", prog).num("k", k).num("a", a).raw("va", va).raw("res", enc_float(dv))
+                                .raw("all", "[" + raw_of(r, 1) + "," + raw_of(r, 2) + "," + raw_of(r, 3) + "," + raw_of(r, 4) + "]").str("out", o2).s);
+            } else if (field_s(o, "k") == "fromint") {
+                int rr = field_i(o, "r");
+                long long v = int_table(field_i(o, "vi"));
+                std::string before = raw_of(r, rr);
+                std::string o2 = rr == 1 ? from_int<1>(r, v) : rr == 2 ? from_int<2>(r, v) : rr == 3 ? from_int<3>(r, v) : from_int<4>(r, v);
+                out.put(ev("StFromInt").num("i", id).num("prog", prog).num("k", k).num("d", rr).raw("v", enc(v)).raw("before", before).raw("after", raw_of(r, rr))
+                                .raw("all", "[" + raw_of(r, 1) + "," + raw_of(r, 2) + "," + raw_of(r, 3) + "," + raw_of(r, 4) + "]").str("out", o2).s);
+            } else if (field_s(o, "k") == "neg") {
+                int a = field_i(o, "a"), d = field_i(o, "d");
+                std::string va = raw_of(r, a), before = raw_of(r, d);
+                std::string o2 = neg_ad(r, a, d);
+                out.put(ev("StStep").num("i", id).num("prog", prog).num("k", k).str("op", "neg").str("form", "unary").num("a", a).num("b", a).num("d", d)
+                                .raw("va", va).raw("vb", va).raw("before", before).raw("after", raw_of(r, d))
+                                .raw("all", "[" + raw_of(r, 1) + "," + raw_of(r, 2) + "," + raw_of(r, 3) + "," + raw_of(r, 4) + "]").str("out", o2).s);
+            } else if (field_s(o, "k") == "cas") {
+                // d op= a is judged as d := d op a
+                std::string op = field_s(o, "op");
+                int a = field_i(o, "a"), d = field_i(o, "d");
+                std::string va = raw_of(r, a), before = raw_of(r, d);
+                if (op == "div" && va == "[0]") {
+                    continue;
+                }
+                std::string o2 = cas_ad(r, op, a, d);
+                out.put(ev("StStep").num("i", id).num("prog", prog).num("k", k).str("op", op).str("form", "compound").num("a", d).num("b", a).num("d", d)
+                                .raw("va", before).raw("vb", va).raw("before", before).raw("after", raw_of(r, d))
+                                .raw("all", "[" + raw_of(r, 1) + "," + raw_of(r, 2) + "," + raw_of(r, 3) + "," + raw_of(r, 4) + "]").str("out", o2).s);
             } else {
                 std::string op = field_s(o, "op");
                 int a = field_i(o, "a"), b = field_i(o, "b"), d = field_i(o, "d");
@@ -203,7 +360,7 @@ int main(int argc, char** argv)
                     continue;      // zero divisors are outside the domain
                 }
                 std::string o2 = bin_abd(r, op, a, b, d);
-                out.put(ev("StStep").num("i", id).num("prog", prog).num("k", k).str("op", op).num("a", a).num("b", b).num("d", d)
+                out.put(ev("StStep").num("i", id).num("prog", prog).num("k", k).str("op", op).str("form", "binary").num("a", a).num("b", b).num("d", d)
                                 .raw("va", va).raw("vb", vb).raw("before", before).raw("after", raw_of(r, d))
                                 .raw("all", "[" + raw_of(r, 1) + "," + raw_of(r, 2) + "," + raw_of(r, 3) + "," + raw_of(r, 4) + "]").str("out", o2).s);
             }
